@@ -656,11 +656,27 @@ impl Sys {
                 self.w.read_error();
             }
             Ev::ReadErrOnce => {
-                // (the client is expected to treat any read error as the end of the connection)
-                self.m.read_err = true;
-                self.m.input_arrived();
-                let k = self.w.wire.borrow().read_err_kind;
+                // A transient error (Err once, the transport is fine afterwards). Ending the
+                // connection with SocketClosed and carrying on are both legitimate answers (a client
+                // may retry Interrupted / WouldBlock): the implementation's answer is followed. What
+                // is not legitimate is to sit there without a wakeup - that shows as unread input at
+                // the next delivery.
+                let k = self.w.wire.borrow().transient_kind;
+                let before = self.w.log_len();
                 self.w.read_error_once(k);
+                self.w.settle();
+                let returned = self
+                    .w
+                    .obs_since(before)
+                    .iter()
+                    .any(|o| matches!(o, Ob::Ctx { .. }))
+                    || self.w.wire.borrow().read_err_once.is_some();
+                if returned {
+                    self.m.read_err = true;
+                    self.m.input_arrived();
+                } else {
+                    self.m.hits.push("transient-error-survived");
+                }
             }
             Ev::WriteErr => {
                 self.m.write_err = true;
